@@ -7,4 +7,5 @@ def main (args : List String) : IO UInt32 := do
   | ["sess"] => Driver.SessC.main; return 0
   | ["wait"] => Driver.WaitC.main; return 0
   | ["wire"] => Driver.WireC.main; return 0
+  | ["sched"] => Driver.SchedC.main; return 0
   | _ => IO.eprintln "usage: kcpdriver <component>"; return 2
